@@ -23,13 +23,16 @@ COMPONENTS = {
     'stub': ['aiohttp client session/response (FakeSession/FakeResponse through kopf.AiohttpSession)',
              'Kubernetes API server (FakeCluster reference model)',
              'wall clock (datetime proxy), loop clock and selector (SimLoop)',
-             'OS signals (recorded), random (seeded), sync handlers/threads (not simulated)'],
+             'OS signals (recorded), random (seeded)',
+             'executor threads of synchronous handlers: real threads, but parked and released one at a time by the simulator '
+             '(kopfsim/threads.py behind settings.execution.executor); stopped.wait() and the handlers\' blocking calls are virtual'],
 }
 
 BASE_ASSUMPTIONS = [
     'FakeCluster implements the Kubernetes API conventions kopf relies on (merge/json patch, '
     'finalizers & deletionTimestamp, resourceVersion, watch semantics, status subresource)',
-    'all simulated handlers are async; executor threads are out of scope',
+    'synchronous handlers run in simulated threads in a share of the plans (one thread runs at a time, hand-over only at '
+    'blocking calls: no pre-emption inside a handler); process executors are out of scope',
     'call_soon FIFO order inside one loop is never permuted (as in real asyncio); schedules vary in '
     'latencies, deadline coincidences, loop stalls, tie order and which process runs',
     'sampling, not enumeration: a clean batch is evidence, not proof',
